@@ -4,6 +4,7 @@ import (
 	"bytes"
 	"fmt"
 	"strings"
+	"time"
 
 	"github.com/foxboron/go-uefi/authenticode"
 	"github.com/foxboron/go-uefi/pkcs7"
@@ -22,6 +23,9 @@ func checkC16(r *mon.Run) {
 		r.Inconclusive("openssl CLI not installed")
 		return
 	}
+	// the monitor's process runs in a non-UTC zone: re-encoding of attributes must not depend on it
+	time.Local = time.FixedZone("VERIF+0545", 5*3600+45*60)
+	r.Set("process_time_zone", "fixed +05:45")
 	seeds := opensslSeeds(r, r.N(70, 2000), true)
 	seeds = append(seeds, fixtureSeeds(r)...)
 	twinK := keys.Get(6)
@@ -111,6 +115,15 @@ func checkC16(r *mon.Run) {
 			c    interface{}
 		}{} {
 			_ = oc
+		}
+		// asking again must give the same answer (no state kept between calls on one parsed object)
+		for rep := 0; rep < 2; rep++ {
+			var okr bool
+			var verr2 error
+			if p := tryP(func() { okr, verr2 = p7.Verify(s.Right) }); p != "" || !okr {
+				fail("signer-not-verified-on-repeat", fmt.Sprintf("call %d of Verify with the signer's certificate on the same parsed object: %v %v %s", rep+2, okr, verr2, p))
+				return
+			}
 		}
 		if ok2, _ := p7.Verify(other); ok2 {
 			fail("unrelated-verified", "verifies against an unrelated certificate")
